@@ -745,11 +745,19 @@ def to_hashable(  # noqa: C901, PLR0911, PLR0912
 
     # Handle numpy arrays
     if "numpy" in sys.modules and isinstance(obj, sys.modules["numpy"].ndarray):
+        np = sys.modules["numpy"]
+        flat: Any = obj.flatten()
+        mask: tuple = ()
+        if isinstance(obj, np.ma.MaskedArray):
+            # `numpy.ma.masked` is not hashable: the key holds the mask and `None` for masked elements
+            is_masked = np.ma.getmaskarray(obj).flatten().tolist()
+            flat = [None if hide else x for x, hide in zip(obj.data.flatten(), is_masked)]
+            mask = (tuple(is_masked),)
         if obj.dtype == object:  # elements can be unhashable (lists, dicts, arrays, ...)
-            items = _hashable_iterable(obj.flatten(), fallback_to_pickle)
+            items = _hashable_iterable(flat, fallback_to_pickle)
         else:
-            items = tuple(obj.flatten())
-        return (m, tp, (obj.shape, obj.dtype.str, items))
+            items = tuple(flat)
+        return (m, tp, (obj.shape, obj.dtype.str, items, *mask))
 
     # Handle pandas Series and DataFrames
     if "pandas" in sys.modules:
